@@ -183,6 +183,28 @@ def run(ctx: Ctx) -> RuleResult:
         if not handled:
             res.finding(f, enclosing_stmt(s.node), 'next_token signals end of input with EOFError and this caller does not catch it',
                         construct='eof-unhandled')
+    # the contextual lexer: what it reports comes from the lexer of the current parser state -- the UnexpectedToken built from the root
+    # lexer's token carries the *contextual* error's allowed set, and when even the root lexer matches nothing the contextual error
+    # itself is raised again (a bare `raise` there would re-raise the root lexer's error, whose allowed set is every terminal)
+    cl = repo.func('lark.lexer:ContextualLexer.lex')
+    outer = [h for h in cl.body_nodes() if isinstance(h, ast.ExceptHandler) and h.type is not None and 'UnexpectedCharacters' in norm(h.type) and h.name]
+    ok = len(outer) == 1
+    why = 'no handler `except UnexpectedCharacters as e` around the contextual next_token'
+    if ok:
+        e_ = outer[0].name
+        inner = [h for t in ast.walk(outer[0]) if isinstance(t, ast.Try) for h in t.handlers
+                 if h.type is not None and 'UnexpectedCharacters' in norm(h.type)]
+        rs = [r for h in inner for r in ast.walk(h) if isinstance(r, ast.Raise)]
+        ok = len(inner) == 1 and len(rs) == 1 and rs[0].exc is not None and norm(rs[0].exc) == e_
+        why = 'the fallback handler raises %s' % (norm(rs[0]) if rs else 'nothing')
+        if ok:
+            ut = [c for c in ast.walk(outer[0]) if isinstance(c, ast.Call) and norm(c.func) == 'UnexpectedToken']
+            ok = len(ut) == 1 and len(ut[0].args) >= 2 and norm(ut[0].args[1]) == e_ + '.allowed'
+            why = 'the UnexpectedToken does not carry %s.allowed' % e_
+    res.ob('%s %s' % (cl.loc(), cl.qual), 'the contextual lexer reports the error of the current state\'s lexer (its allowed set; re-raised by name)', ok)
+    if not ok:
+        res.finding(cl, cl.node, 'ContextualLexer.lex no longer reports the current state\'s own lexing error (%s): the expected / allowed set '
+                    'names terminals that cannot come next' % why, construct='contextual-reraise')
     # the LALR driver: the error is raised before the offending token is shifted; $END borrows the last token
     ft = repo.func('lark.parsers.lalr_parser_state:ParserState.feed_token')
     ok = False
@@ -213,18 +235,26 @@ def run(ctx: Ctx) -> RuleResult:
         if not ok:
             res.finding(site.func, enclosing_stmt(call), 'parse_from_state is resumed without the last token: when only ignorable text remains, '
                         'the unexpected $END is reported at 1:1 instead of at the last token', construct='resume-without-last-token')
-    # Earley: expected sets are computed from the scan buffer
-    for fq, cls in (('lark.parsers.earley:Parser._parse.scan', 'UnexpectedToken'), ('lark.parsers.xearley:Parser._parse.scan', 'UnexpectedCharacters')):
+    # Earley: expected sets are computed from the scan buffer; the rejection happens exactly when nothing survives the step
+    from ..exprs import path_conditions, bool_relation
+    for fq, cls, want in (('lark.parsers.earley:Parser._parse.scan', 'UnexpectedToken', 'not next_set and not next_to_scan'),
+                          ('lark.parsers.xearley:Parser._parse.scan', 'UnexpectedCharacters', 'not next_set and not delayed_matches and not next_to_scan')):
         f = repo.func(fq)
         rs = [n for n in f.body_nodes() if isinstance(n, ast.Raise) and cls in norm(n.exc)]
         ok = len(rs) == 1
+        why = '%d raise sites' % len(rs)
         if ok:
+            conds = [(t, pol) for t, pol in path_conditions(rs[0]) if not (isinstance(t, ast.Call) and norm(t.func) == 'isinstance')]
+            conj = ' and '.join('(%s)' % norm(t) if pol else '(not (%s))' % norm(t) for t, pol in conds) or 'True'
+            rel = bool_relation(ast.parse(conj, mode='eval').body, ast.parse(want, mode='eval').body)
             guard = [a for a in ancestors(rs[0]) if isinstance(a, ast.If)]
-            ok = bool(guard) and 'not next_set' in norm(guard[0].test) and 'not next_to_scan' in norm(guard[0].test) \
-                and 'to_scan' in norm(rs[0].exc) and '.expect.name' in (norm(rs[0].exc) + ' '.join(norm(s) for s in guard[0].body))
-        res.ob('%s %s' % (f.loc(), f.qual), '%s is raised exactly when no item survives the step, with the expected terminals of the scan buffer' % cls, ok)
+            ok = rel == 'same' and 'to_scan' in norm(rs[0].exc) and '.expect.name' in (norm(rs[0].exc) + ' '.join(norm(s_) for g_ in guard for s_ in g_.body))
+            why = 'raised when %s' % conj
+        res.ob('%s %s' % (f.loc(), f.qual), '%s is raised exactly when no item survives the step (%s), with the expected terminals of the scan buffer'
+               % (cls, want), ok)
         if not ok:
-            res.finding(f, f.node, 'the Earley scanner\'s rejection (%s) changed shape' % cls, construct='earley-reject:' + cls)
+            res.finding(f, rs[0] if rs else f.node, 'the Earley scanner\'s rejection (%s) is not raised exactly when %s (%s): input that cannot be '
+                        'continued is reported later, elsewhere, or as an unexpected end of input' % (cls, want, why), construct='earley-reject:' + cls)
     ep = repo.func('lark.parsers.earley:Parser.parse')
     ok = any(isinstance(n, ast.If) and has_pat([n.test], 'not $s') and any(isinstance(s, ast.Raise) and 'UnexpectedEOF' in norm(s.exc) for s in n.body)
              for n in ep.body_nodes())
@@ -242,3 +272,34 @@ def _always_raises(h: ast.ExceptHandler) -> List[bool]:
     if isinstance(last, ast.Try):
         return [any(isinstance(x, ast.Raise) for x in ast.walk(last))]
     return [False]
+
+
+def run_on_error(ctx: Ctx) -> RuleResult:
+    """R-ONERROR-SKIP [C08 C13]: resuming after on_error continues where the handler left the input."""
+    repo = ctx.repo
+    res = RuleResult('R-ONERROR-SKIP', 'after on_error, the library skips one character exactly when the handler did not move the position')
+    # on_error: the library skips a character itself exactly when the handler left the position where it was
+    lp = repo.func('lark.parsers.lalr_parser:LALR_Parser.parse')
+    feeds = [c for c in lp.body_nodes() if isinstance(c, ast.Call) and norm(c.func).endswith('.line_ctr.feed')]
+    site = '%s %s' % (lp.loc(), lp.qual)
+    ok = len(feeds) == 1
+    why = 'cannot find the skip'
+    if ok:
+        from ..exprs import runs_only_if, path_conditions
+        st = enclosing_stmt(feeds[0])
+        recv = norm(feeds[0].func)[:-len('.feed')]                  # <s>.line_ctr
+        saved = [a for a in lp.body_nodes() if isinstance(a, ast.Assign) and len(a.targets) == 1 and isinstance(a.targets[0], ast.Name)
+                 and norm(a.value) == recv + '.char_pos']
+        calls = [c for c in lp.body_nodes() if isinstance(c, ast.Call) and norm(c.func) == (lp.positional_names() + ['', '', ''])[2]]
+        ok = len(saved) == 1 and len(calls) == 1 and saved[0].lineno < calls[0].lineno < st.lineno
+        why = 'the position is not saved before the handler is called'
+        if ok:
+            want = ast.parse('%s == %s.char_pos' % (saved[0].targets[0].id, recv), mode='eval').body
+            ok = runs_only_if(st, want)
+            why = 'the skip runs under %s' % [('' if pol else 'not ') + norm(t) for t, pol in path_conditions(st)][-2:]
+    res.ob(site, 'on_error: one character is skipped exactly when the handler did not move the position (saved before the call, compared with ==)', ok)
+    if not ok:
+        res.finding(lp, feeds[0] if feeds else lp.node, 'after on_error returned True the library no longer skips one character exactly when the '
+                    'handler left the position unchanged (%s): a handler that advanced the lexer itself loses a further, good character -- or a '
+                    'handler that did nothing loops forever' % why, construct='on-error-skip')
+    return res
